@@ -1,7 +1,7 @@
 from .base import *
 
 ID = 'C02'
-THEOREMS = ['C02_fast_path', 'C02_dimension', 'C02_with_blade', 'C02_scalar', 'C02_decomp_exact', 'C02_new_is_from_total', 'C02_new_value', 'C02_fast_path_negative', 'C02_new_value_pd', 'C02_negative_at_most_one_turn', 'C02_lift_range', 'C02_from_cartesian_direction', 'C02_from_cartesian_value', 'C02_radians_direction', 'C02_new_direction', 'C02_atan2_premise_inhabited']
+THEOREMS = ['C02_fast_path', 'C02_dimension', 'C02_with_blade', 'C02_scalar', 'C02_decomp_exact', 'C02_new_is_from_total', 'C02_new_value', 'C02_fast_path_negative', 'C02_new_value_pd', 'C02_negative_at_most_one_turn', 'C02_lift_range', 'C02_from_cartesian_direction', 'C02_from_cartesian_value', 'C02_radians_direction', 'C02_new_direction', 'C02_atan2_premise_inhabited', 'C02_total_real_pi', 'C02_new_real_pi']
 OWNED = {'ANew', 'ANewBlade', 'ANewCart', 'GNew', 'GNewBlade', 'GNewCart', 'GDim', 'GScalar', 'GNewAngle'}
 RULE = ('Angle::new(p, d) on the exhaustive grid p in [-512,512] (quick) / [-4096,4096] (thorough) x d in {1,2,3,4,6,8,12,PI}, plus random classes: exact multiples of pi/2 written with any divisor, radians with divisor PI, '
         'half-integers, negatives, denormals, |2p/d| log-uniform to 2^40, remainders steered next to 0 / 1e-15 / 1e-10 / pi/2 at +-2 ulps; blade offsets {0..8,1000,10^6,2^31-1,2^31,2^32+2,2^40}; '
@@ -51,5 +51,5 @@ def generate(rng, tier):
 
 LEVEL_TEXT = ('Kernel-checked theorems about the model: Angle::new(k, 2.0) is exactly {blade k, remainder 0} for every integer 0 <= k < 2^53 (hence create_dimension); an explicit blade offset n < 2^53 adds exactly n quarter turns and leaves the remainder untouched; '
               'scalar(v) is |v| at blade 0 (v >= 0 incl. -0.0) or blade 2; on the general path (repaired defect F2) the result holds exactly k = floor(t/q) quarter turns with the exact remainder t - kq, or the 1e-10 snap fired (k+1, remainder 0), for every finite lifted total 0 < t <= 2^43; negative quarter turns -2^50 < d < 0 written with divisor 2 land exactly on d + 4*floor((6-d)/4) blades (3..6 above d, remainder 0), '
-              'so the library total equals t within 1e-10 + 2^-52. C02_negative_at_most_one_turn / C02_lift_range: a negative total on the general path is lifted into [0, 2 pi + 2^-8] and yields at most 4 blades (exactly 4 only with a remainder below 2^-8: the rounding of the lift at totals up to 2^42). C02_new_direction (REAL pi): on the general path the result points along the computed total modulo whole turns within 1e-10 + 2e-14 + |t|*1e-15. C02_from_cartesian_direction / C02_from_cartesian_value: the Cartesian constructors reproduce the vector (x, y) component by component within r(6*2^-53 + u2 + 1e-10 + 3e-14) for any libm whose atan2 is within u2 of an angle reproducing its arguments (explicit premise atan2_acc, shown satisfiable, monitored on every recorded call). The relation of the computed total t to the REAL p*pi/d is decided against mpmath (S3).')
-LEVEL_NOTE = ('Partial for the relation of the float total to the real p*pi/d. Trusted: Coq kernel + vm_compute; 4 standard-library axioms; plus the primitive-integer axioms (PrimInt63.*, Uint63.*_spec) of the Interval tactic for the real-pi theorems; hand-written model validated bit-for-bit each run; harness/emitter/predicates.')
+              'so the library total equals t within 1e-10 + 2^-52. C02_negative_at_most_one_turn / C02_lift_range: a negative total on the general path is lifted into [0, 2 pi + 2^-8] and yields at most 4 blades (exactly 4 only with a remainder below 2^-8: the rounding of the lift at totals up to 2^42). C02_new_direction (REAL pi): on the general path the result points along the computed total modulo whole turns within 1e-10 + 2e-14 + |t|*1e-15. C02_from_cartesian_direction / C02_from_cartesian_value: the Cartesian constructors reproduce the vector (x, y) component by component within r(6*2^-53 + u2 + 1e-10 + 3e-14) for any libm whose atan2 is within u2 of an angle reproducing its arguments (explicit premise atan2_acc, shown satisfiable, monitored on every recorded call). C02_total_real_pi / C02_new_real_pi: the computed total is the REAL p*pi/d within 5e-16 relative, so Angle::new(p, d) on the general path denotes p*pi/d modulo whole forward turns within 1e-10 + 3e-14 + |t|*2e-15 (|d| >= 2^-500). Every case of each run is additionally decided against mpmath (S3).')
+LEVEL_NOTE = ('The fast path (integer quarter turns) is exact; the general path is covered by C02_new_real_pi. Trusted: Coq kernel + vm_compute; 4 standard-library axioms; plus the primitive-integer axioms (PrimInt63.*, Uint63.*_spec) of the Interval tactic for the real-pi theorems; hand-written model validated bit-for-bit each run; harness/emitter/predicates.')
